@@ -265,4 +265,77 @@ def runNotifs : St → List Event → List Notif
   | _, [] => []
   | s, e :: evs => (step s e).2 ++ runNotifs (step s e).1 evs
 
+/-! ### vocabulary of the property statements -/
+
+/-- every single state a report carries (directly or inside description modification parts) -/
+def allStates (r : Report) : List SState := r.states ++ r.parts.flatMap (·.states)
+def allCStates (r : Report) : List CState := r.cstates ++ r.parts.flatMap (·.cstates)
+
+/-- the part neither deletes a descriptor nor updates a context descriptor (which removes context states) -/
+def partNonRemoving (p : DescrPart) : Bool :=
+  p.mod == .create || (p.mod == .update && p.descr.kind != Kind.context)
+
+/-- the report announces no deletion -/
+def nonRemoving (r : Report) : Bool := r.kind != .description || r.parts.all partNonRemoving
+
+/-- keys of the three tables are unique (what the unique indices `handle` / `descriptor_handle` enforce) -/
+structure Tables.Wf (t : Tables) : Prop where
+  d : (t.descrs.map (·.handle)).Nodup
+  s : (t.states.map (·.dh)).Nodup
+  c : (t.cstates.map (·.h)).Nodup
+
+/-- every entry persists and its version does not decrease -/
+def Keeps {α : Type} (key sv : α → Nat) (l l' : List α) : Prop :=
+  ∀ k a, lookupBy key l k = some a → ∃ b, lookupBy key l' k = some b ∧ sv a ≤ sv b
+
+/-- versions of the entries present in both lists do not decrease (entries may disappear) -/
+def Mono {α : Type} (key sv : α → Nat) (l l' : List α) : Prop :=
+  ∀ k a b, lookupBy key l k = some a → lookupBy key l' k = some b → sv a ≤ sv b
+
+/-- the table already holds an entry for the key of `x` that is at least as new -/
+def Covered {α : Type} (key sv : α → Nat) (l : List α) (x : α) : Prop :=
+  ∃ a, lookupBy key l (key x) = some a ∧ sv x ≤ sv a
+
+/-- the handlers applied one after the other -/
+def applyAll : Core → List Report → Core × List Notif
+  | c, [] => (c, [])
+  | c, r :: rs => ((applyAll (applyReport c r).1 rs).1, (applyReport c r).2 :: (applyAll (applyReport c r).1 rs).2)
+
+/-- a buffered report is replayed iff it has the SequenceId of the loaded MDIB and is newer than it -/
+def replayable (v0 seq : Nat) (r : Report) : Bool := r.vg.seq == seq && decide (v0 < r.vg.ver)
+
+/-- the single states / context states an event delivers to the consumer -/
+def eventStates : Event → List SState
+  | .report r => allStates r
+  | .reloadBegin => []
+  | .reloadEnd snap _ => snap.states
+
+def eventCStates : Event → List CState
+  | .report r => allCStates r
+  | .reloadBegin => []
+  | .reloadEnd snap ctx2 => snap.cstates ++ ctx2
+
+/-- what a state / context report (not a description modification report) delivers is already there -/
+def StatesCovered (c : Core) (r : Report) : Prop :=
+  if r.kind = .context then ∀ x ∈ r.cstates, Covered (·.h) (·.sv) c.tabs.cstates x
+  else ∀ x ∈ r.states, Covered (·.dh) (·.sv) c.tabs.states x
+
+/-- the part is already reflected by the tables: applying it (again) changes nothing -/
+def partSettled (t : Tables) (p : DescrPart) : Prop :=
+  match p.mod with
+  | .create =>
+    lookupBy (·.handle) t.descrs p.descr.handle = some p.descr ∧
+    (∀ x ∈ p.states, Covered (·.dh) (·.sv) t.states x) ∧ (∀ x ∈ p.cstates, Covered (·.h) (·.sv) t.cstates x)
+  | .update =>
+    (∀ old, lookupBy (·.handle) t.descrs p.descr.handle = some old →
+      old = { p.descr with parent := old.parent, mds := old.mds }) ∧
+    (p.descr.kind = Kind.context → ∀ s ∈ t.cstates, s.dh = p.descr.handle →
+      s.h ∈ (p.cstates.filter (fun x => x.dh == p.descr.handle)).map (·.h)) ∧
+    (∀ x ∈ p.states, lookupBy (·.dh) t.states x.dh = none ∨ Covered (·.dh) (·.sv) t.states x) ∧
+    (∀ x ∈ p.cstates, lookupBy (·.h) t.cstates x.h = none ∨ Covered (·.h) (·.sv) t.cstates x)
+  | .delete => lookupBy (·.handle) t.descrs p.descr.handle = none
+
+/-- every part of the description modification report is already reflected by the tables -/
+def Settled (t : Tables) (r : Report) : Prop := ∀ p ∈ r.parts, partSettled t p
+
 end Sdc.Consumer
